@@ -12,16 +12,20 @@
    the SAME monitors that judge real executions (ConvTrace!MusPlayFails / XmiPlayFails: per tick group exactly the reference
    events, for MUS modulo exactly the CC7 = 100 artefacts, times within the tolerances of the property), plus the internal
    consistency of the written SMF (declared track length = size of the events, exactly one End-of-Track and nothing behind it).
-   One TLC state per (score prefix, tempo).  Failures that are listed findings of the REAL converters and that the models
+   Two alphabets (variable va): 1 = the enumerations of ConvMC (<= MaxLen events); 2 = the "table" alphabets below (<= MaxLen2
+   events): every MUS controller number 0..9 and system event 10..14, pitch wheel extremes and odd values, notes at the ends
+   of the key/volume range, a three-digit delay; for XMI every channel-voice status, controllers 0/1/32/64/121/127, wheel
+   extremes, two- and three-byte durations and intervals at the 127/128 split of the interval encoding.
+   One TLC state per (alphabet, score prefix, tempo).  Failures that are listed findings of the REAL converters and that the models
    reproduce (F16c bank select 127 -> 0, F16d time-division truncation) go to `known`, everything else to `bad`
    (INVARIANT NoBad), as in SeqMC.  The ASSUMEs at the end pin the two known findings and the converter's treatment of the
    AIL controllers to witnesses (printed as KNOWN-WITNESS lines).
    Order inside a tick is the sequencer's business (C07): play delivers controllers before note-ons.               *)
 EXTENDS ConvTrace
-CONSTANTS Fmt, MaxLen, Tempi
-VARIABLES sc, tp, bad, known
+CONSTANTS Fmt, MaxLen, MaxLen2, Tempi
+VARIABLES sc, tp, va, bad, known
 MC == INSTANCE ConvMC WITH sc <- sc, bad <- bad, Fmt <- Fmt, MaxLen <- MaxLen
-mvars == <<sc, tp, bad, known, l, src, sel, prev, fails, cnt, exec, drift>>
+mvars == <<sc, tp, va, bad, known, l, src, sel, prev, fails, cnt, exec, drift>>
 
 KnownLabels == {"xmi-bank127", "xmi-tempo-rounding"}
 
@@ -96,6 +100,16 @@ MusJudgeScore(score, chans) ==
               f == MusPlayFails(PlayRec(AbsSong(o)), s) \cup SmfShapeFails(o) \cup Lbl(o.fmt = 0, "smf-format")
           IN [bad |-> f \ KnownLabels, known |-> f \cap KnownLabels]
 MusJudge(s) == MusJudgeScore(MC!MusScore(s), 2)
+\* alphabet 2: the whole controller / system-event table, wheel and range extremes, a three-digit delay
+MusDl2 == IF MaxLen2 <= 2 THEN 16384 ELSE 14000            \* MusTickUs is exact in 32 bits below 42 949 ticks
+MusShapes2(ch, dl) ==
+  LET n == IF ch = 15 THEN 50 ELSE 127 IN
+  [c \in 1..10 |-> [k |-> "ctl", ch |-> ch, c |-> c - 1, v |-> ((c - 1) * 11 + 17) % 128, dl |-> dl]] \o
+  [c \in 1..5 |-> [k |-> "sys", ch |-> ch, c |-> c + 9, dl |-> dl]] \o
+  << [k |-> "pitch", ch |-> ch, v |-> 0, dl |-> dl], [k |-> "pitch", ch |-> ch, v |-> 1, dl |-> dl], [k |-> "pitch", ch |-> ch, v |-> 128, dl |-> dl],
+     [k |-> "pitch", ch |-> ch, v |-> 255, dl |-> dl], [k |-> "play", ch |-> ch, n |-> n, v |-> 127, dl |-> dl], [k |-> "play", ch |-> ch, n |-> 0, v |-> 1, dl |-> dl],
+     [k |-> "play", ch |-> ch, n |-> n, v |-> -1, dl |-> dl], [k |-> "rel", ch |-> ch, n |-> n, dl |-> dl] >>
+MusAlphabet2 == UNION { SeqToSet(MusShapes2(ch, dl)) : ch \in {14, 15}, dl \in {0, MusDl2} }
 \* the full channel range (16 events, beyond MaxLen): the 16 channels in 8 stride orders, each with a note using the remembered volume
 MusWideBad ==
   LET wide(st) == [i \in 1..16 |-> [k |-> "play", ch |-> (i * st) % 16, n |-> 40 + i, v |-> 30 + i, dl |-> i % 3]] \o
@@ -105,7 +119,15 @@ MusWideBad ==
 
 (* XMI *)
 XmiExtra == { <<dt, [k |-> "cc", ch |-> 0, n |-> 0, v |-> 127]>> : dt \in {0, 5} } \cup { <<0, [k |-> "cc", ch |-> 9, n |-> 0, v |-> 5]>> }
-XmiSongT(s, us) == [ev |-> << <<0, [k |-> "tempo", us |-> us]>> >> \o s, eot |-> 130]
+XmiSongT(s, us, eot) == [ev |-> << <<0, [k |-> "tempo", us |-> us]>> >> \o s, eot |-> eot]
+\* alphabet 2: every channel-voice status, controller table corners, wheel extremes, 2- and 3-byte durations, interval split at 127/128
+XmiShapes2(ch, dt) ==
+  << <<dt, [k |-> "on", ch |-> ch, n |-> 127, v |-> 127, dur |-> 128]>>, <<dt, [k |-> "on", ch |-> ch, n |-> 0, v |-> 1, dur |-> 16384]>>,
+     <<dt, [k |-> "cc", ch |-> ch, n |-> 0, v |-> 5]>>, <<dt, [k |-> "cc", ch |-> ch, n |-> 1, v |-> 0]>>, <<dt, [k |-> "cc", ch |-> ch, n |-> 32, v |-> 127]>>,
+     <<dt, [k |-> "cc", ch |-> ch, n |-> 64, v |-> 127]>>, <<dt, [k |-> "cc", ch |-> ch, n |-> 121, v |-> 0]>>, <<dt, [k |-> "cc", ch |-> ch, n |-> 127, v |-> 1]>>,
+     <<dt, [k |-> "nat", ch |-> ch, n |-> 60, v |-> 99]>>, <<dt, [k |-> "cat", ch |-> ch, v |-> 127]>>, <<dt, [k |-> "bend", ch |-> ch, v |-> 0]>>,
+     <<dt, [k |-> "bend", ch |-> ch, v |-> 16383]>>, <<dt, [k |-> "pc", ch |-> ch, p |-> 127]>> >>
+XmiAlphabet2 == UNION { SeqToSet(XmiShapes2(ch, dt)) : ch \in {1, 15}, dt \in {0, 127, 128} }
 XmiJudgeFile(songs, which) ==
   LET f == [songs |-> songs]
       bytes == XmiBytes(f)
@@ -122,29 +144,30 @@ XmiJudgeFile(songs, which) ==
 \* the sequence alone, and as second sequence of a two-sequence file whose first one has another tempo, a TIMB chunk and an
 \* odd-length EVNT chunk (padding): conversion of a sequence must not depend on its neighbours
 XmiOther == [ev |-> << <<0, [k |-> "tempo", us |-> 250000]>>, <<3, [k |-> "pc", ch |-> 2, p |-> 9]>> >>, eot |-> 1, timb |-> << <<5, 0>>, <<7, 127>> >>]
-XmiJudge(s, us) ==
-  LET a == XmiJudgeFile(<< XmiSongT(s, us) >>, {1})
-      b == IF Len(s) <= 1 THEN XmiJudgeFile(<< XmiOther, XmiSongT(s, us) >>, {1, 2}) ELSE [bad |-> {}, known |-> {}]
+XmiJudge(s, us, eot) ==
+  LET a == XmiJudgeFile(<< XmiSongT(s, us, eot) >>, {1})
+      b == IF Len(s) <= 1 THEN XmiJudgeFile(<< XmiOther, XmiSongT(s, us, eot) >>, {1, 2}) ELSE [bad |-> {}, known |-> {}]
   IN [bad |-> a.bad \cup b.bad, known |-> a.known \cup b.known]
 
 ---------------------------------------------------------------------------
-Alphabet == IF Fmt = "mus" THEN MC!MusAlphabet ELSE MC!XmiAlphabet \cup XmiExtra
-Judge(s, t) == IF Fmt = "mus" THEN MusJudge(s) ELSE XmiJudge(s, t)
-MCInit == /\ sc = <<>> /\ tp \in (IF Fmt = "mus" THEN {0} ELSE Tempi)
-          /\ LET j == Judge(<<>>, tp) IN bad = j.bad \cup (IF Fmt = "mus" THEN MusWideBad ELSE {}) /\ known = j.known
+Alphabet == IF Fmt = "mus" THEN (IF va = 1 THEN MC!MusAlphabet ELSE MusAlphabet2)
+            ELSE (IF va = 1 THEN MC!XmiAlphabet \cup XmiExtra ELSE XmiAlphabet2)
+Judge(s, t) == IF Fmt = "mus" THEN MusJudge(s) ELSE XmiJudge(s, t, IF va = 1 THEN 130 ELSE 16400)
+MCInit == /\ sc = <<>> /\ tp \in (IF Fmt = "mus" THEN {0} ELSE Tempi) /\ va \in (IF MaxLen2 > 0 THEN {1, 2} ELSE {1})
+          /\ LET j == Judge(<<>>, tp) IN bad = j.bad \cup (IF Fmt = "mus" /\ va = 1 THEN MusWideBad ELSE {}) /\ known = j.known
           /\ l = 1 /\ src = Src0 /\ sel = 0 /\ prev = Prev0 /\ fails = <<>> /\ cnt = Cnt0 /\ exec = 0 /\ drift = <<>>
-MCNext == /\ Len(sc) < MaxLen
+MCNext == /\ Len(sc) < (IF va = 1 THEN MaxLen ELSE MaxLen2)
           /\ \E x \in Alphabet : /\ sc' = Append(sc, x)
                                  /\ LET j == Judge(Append(sc, x), tp) IN bad' = j.bad /\ known' = j.known
-          /\ UNCHANGED <<tp, l, src, sel, prev, fails, cnt, exec, drift>>
+          /\ UNCHANGED <<tp, va, l, src, sel, prev, fails, cnt, exec, drift>>
 MCSpec == MCInit /\ [][MCNext]_mvars
 NoBad == bad = {}
 
 ---------------------------------------------------------------------------
 (* witnesses, evaluated once at start-up *)
-W1 == XmiJudge(<< <<5, [k |-> "cc", ch |-> 0, n |-> 0, v |-> 127]>> >>, 500000)
-W2 == XmiJudge(<< <<200, [k |-> "on", ch |-> 0, n |-> 60, v |-> 100, dur |-> 1]>> >>, 480000)
-W3 == XmiJudge(<< <<200, [k |-> "on", ch |-> 0, n |-> 60, v |-> 100, dur |-> 1]>> >>, 500000)
+W1 == XmiJudge(<< <<5, [k |-> "cc", ch |-> 0, n |-> 0, v |-> 127]>> >>, 500000, 130)
+W2 == XmiJudge(<< <<200, [k |-> "on", ch |-> 0, n |-> 60, v |-> 100, dur |-> 1]>> >>, 480000, 130)
+W3 == XmiJudge(<< <<200, [k |-> "on", ch |-> 0, n |-> 60, v |-> 100, dur |-> 1]>> >>, 500000, 130)
 \* controllers are data to the converter: 116/117 (FOR/NEXT) and 110..120 pass through, 114 -> 32 except on channel 9
 CtlFile == [songs |-> << [ev |-> << <<0, [k |-> "cc", ch |-> 1, n |-> 116, v |-> 2]>>, <<4, [k |-> "cc", ch |-> 1, n |-> 117, v |-> 127]>>,
                                     <<0, [k |-> "cc", ch |-> 1, n |-> 114, v |-> 3]>>, <<0, [k |-> "cc", ch |-> 9, n |-> 114, v |-> 3]>>,
@@ -158,4 +181,12 @@ ASSUME Fmt = "xmi" =>
   /\ W4.songs[1].div = 60          \* no tempo meta: (500000 * 3) / 25000
   /\ W4.songs[1].tracks[1].ev = << <<0, 177, 116, 2>>, <<12, 177, 117, 127>>, <<0, 177, 32, 3>>, <<0, 185, 114, 3>>, <<0, 178, 110, 1>>, <<6, 255, 47>> >>
   /\ W4.songs[1].tracks[1].rs = <<0, 1, 1, 0, 0, 0>>
+\* the delay limit of mus2mid_writevarlen: 2^28 - 1 ticks convert, 2^28 ticks (a five-digit delay) crash the converter as it stands
+\* (label mus-delay-overflow-crash of the check); with the repair switch of Mus2Mid the score is rejected instead
+DelayScore(d) == << [k |-> "rel", ch |-> 0, n |-> 60, dl |-> d], [k |-> "end", ch |-> 0, dl |-> 0] >>
+W5(d) == Mus2Mid(MusBytes(DelayScore(d), 1, <<>>), 0)
+ASSUME Fmt = "mus" =>
+  /\ PrintT("WITNESS MUS delay 2^28 - 1: " \o ToString(W5(268435455).tracks[1].ev) \o "; delay 2^28: " \o ToString(W5(268435456)))
+  /\ W5(268435455).ok /\ W5(268435455).tracks[1].ev[5] = <<268435455, 255, 47>>
+  /\ ~W5(268435456).ok /\ (("crash" \in DOMAIN W5(268435456)) <=> ~M2RepairDelayLimit)
 =============================================================================
